@@ -180,11 +180,11 @@ func (fs *Store) MarkSeen(mailbox, id string) error {
 				return nil
 			}
 			m.Fseen = true
-			break
+			return mb.writeIndex()
 		}
 	}
 
-	return mb.writeIndex()
+	return storage.ErrNotExist
 }
 
 // RemoveMessage deletes a message by ID from the specified mailbox.
